@@ -26,7 +26,7 @@ LEVEL = "exploration"
 RULE = (
     "all token strings of length <= 6 (quick) / 7 (thorough) over {2,3,+,-,*,/,**,(,)} and <= 4 / 5 over that alphabet plus {m, s, //, ^, 0.5}, each with single, double and (where tokenisation is "
     "unchanged) no spaces; every applicable spelling rewrite of every extended-alphabet string; float / Fraction / Decimal registries and ParserHelper.from_string; all strings of length <= 3 / 4 over a "
-    "22-token hostile alphabet under an audit hook. non-trivial = distinct string that CPython accepts after the literal rewrites (the others check the 'never yields a value' clause and are counted separately)"
+    "22-token hostile alphabet under an audit hook; every three-operand tree X op Y op Z with operands {2, m, ohm-sign} x optional parentheses x optional superscript (2, -1) x optional leading minus, 9 operator spellings (+ - * / // ** ^ blank per) in a spaced and a tight layout. non-trivial = distinct string that CPython accepts after the literal rewrites (the others check the 'never yields a value' clause and are counted separately)"
 )
 ASSUMPTIONS = [
     "CPython's parser (ast.parse) defines Python precedence and associativity",
@@ -244,8 +244,13 @@ def spelling_variants(tokens):
                     out.append((w, " ".join(tokens[: i - 1] + [w + " " + tokens[i - 1]] + tokens[i + 2 :])))
             if lit in ("2", "3") and complete and is_operand_end(tokens[i - 1]):
                 out.append(("superscript", " ".join(tokens[:i]) + lit.translate(SUP) + (" " if i + 2 < n else "") + " ".join(tokens[i + 2 :])))
+                if i + 3 < n and tokens[i + 2] == "*" and is_operand_start(tokens[i + 3]):
+                    # two rewrites at once: the exponent as a superscript AND the following '*' as a blank
+                    out.append(("superscript+juxtaposition", " ".join(tokens[:i]) + lit.translate(SUP) + " " + " ".join(tokens[i + 3 :])))
             if lit == "-" and i + 2 < n and tokens[i + 2] in ("2", "3") and (i + 3 >= n or tokens[i + 3] not in ("**", "^")) and is_operand_end(tokens[i - 1]):
                 out.append(("superscript", " ".join(tokens[:i]) + ("-" + tokens[i + 2]).translate(SUP) + (" " if i + 3 < n else "") + " ".join(tokens[i + 3 :])))
+                if i + 4 < n and tokens[i + 3] == "*" and is_operand_start(tokens[i + 4]):
+                    out.append(("superscript+juxtaposition", " ".join(tokens[:i]) + ("-" + tokens[i + 2]).translate(SUP) + " " + " ".join(tokens[i + 4 :])))
     return out
 
 
@@ -275,6 +280,10 @@ def shards(tier, seed):
     for t0 in HOSTILE:
         out.append(("hostile", LH, t0))
     out.append(("literals",))
+    for i in range(len(operand_forms(True, True))):
+        out.append(("trees", "float", i))
+        if tier != "quick":
+            out.append(("trees", "Fraction", i))
     return out
 
 
@@ -289,7 +298,10 @@ def token_strings(alpha, maxlen, prefix):
             yield list(prefix) + list(rest)
 
 
-def leafs(ureg, nt):
+OMEGA = "\u03a9"  # the symbol the definition file gives the ohm: a word character outside ASCII
+
+
+def leafs(ureg, nt, names=None):
     T = NIT[nt]
 
     def leaf_num(text):
@@ -300,7 +312,7 @@ def leafs(ureg, nt):
                 return float(text)
         return T(text)
 
-    units = {"m": "meter", "s": "second"}
+    units = names or {"m": "meter", "s": "second", OMEGA: "ohm"}
 
     def leaf_name(name):
         if name not in units:
@@ -395,6 +407,102 @@ def run_variants(acc, nt, maxlen, prefix):
         finally:
             signal.setitimer(signal.ITIMER_REAL, 0)
     acc.sample({"clause": "spelling-variant", "tokens": ["m", "**", "2", "/", "s"], "variants": [v for _, v in spelling_variants(["m", "**", "2", "/", "s"])]})
+    # the same sweep with a unit whose symbol is a non-ASCII word character (s -> the ohm sign): the
+    # rewrites are defined on "words", and a word is not only [A-Za-z0-9_]
+    leaf_num, leaf_name = leafs(ureg, nt, {"m": "meter", "s": "ohm"})
+    for tokens in token_strings(A2, maxlen, prefix):
+        if has_plus_minus(tokens) or "s" not in tokens:
+            continue
+        signal.setitimer(signal.ITIMER_REAL, 20)
+        try:
+            ref = ref_eval(explicit(tokens), leaf_num, leaf_name)
+            if ref[0] in ("skip", "syntax"):
+                continue
+            utok = [OMEGA if t == "s" else t for t in tokens]
+            vs = [(lab, st.replace("s", OMEGA)) for lab, st in spelling_variants(tokens) if "squared" not in st and "square" not in st and "sq " not in st and "cubed" not in st and "cubic" not in st]
+            for label, st in list(renderings(utok)) + vs:
+                acc.ev()
+                acc.nt(("unicode-name", label, st))
+                got = pint_eval(ureg.parse_expression, st)
+                compare(acc, "unicode-name:" + label, "parse_expression", nt, utok, st, ref, got)
+        except Hang:
+            acc.violation(["unicode-name", "parse_expression", "does-not-terminate", nt], {"tokens": tokens}, "termination", "timeout")
+        finally:
+            signal.setitimer(signal.ITIMER_REAL, 0)
+
+
+# ----------------------------------------------------------------------------- three-operand trees x every spelling
+
+T_BASE = ("2", "m", OMEGA)
+T_POST = (("", ""), ("\u00b2", "**(2)"), ("\u207b\u00b9", "**(-1)"))  # a superscript is one parenthesised exponent
+T_OPS = (("+", "+"), ("-", "-"), ("*", "*"), ("/", "/"), ("//", "//"), ("**", "**"), ("^", "**"), ("", "*"), ("per", "/"))
+
+
+def operand_forms(unary, post):
+    """(pint text, python text) of one operand: optional unary minus, optional parentheses, optional superscript exponent"""
+    out = []
+    for u in (("", "-") if unary else ("",)):
+        for b in T_BASE:
+            for par in (False, True):
+                for ptxt, ppy in (T_POST if post else T_POST[:1]):
+                    core_p = f"({b})" if par else b
+                    out.append((u + core_p + ptxt, u + core_p + ppy))
+    return out
+
+
+def tree_strings(first, tier):
+    """every X op Y op Z for the operand forms of the tier, in a spaced and a tight layout"""
+    second = operand_forms(tier != "quick", True)
+    third = operand_forms(False, tier != "quick")
+    for o1, p1 in T_OPS:
+        for y, ypy in second:
+            if o1 in ("", "per") and y.startswith("-"):
+                continue  # 'm -2' is a subtraction, not juxtaposition with a negative number
+            if o1 == "" and first[0][-1].isdigit() and y.startswith("("):
+                continue  # 2 (3) is the parenthesised-uncertainty shorthand (C19)
+            for o2, p2 in T_OPS:
+                for z, zpy in third:
+                    if o2 == "" and y[-1].isdigit() and z.startswith("("):
+                        continue
+                    py = f"{first[1]} {p1} {ypy} {p2} {zpy}"
+                    for layout in ("spaced", "tight"):
+                        parts = [first[0]]
+                        for o, t in ((o1, y), (o2, z)):
+                            if o == "":
+                                parts.append(" " + t)
+                            elif o == "per" or layout == "spaced":
+                                parts.append(" " + o + " " + t)
+                            else:
+                                parts.append(o + t)
+                        yield layout, "".join(parts), py
+
+
+def run_trees(acc, nt, tier, idx):
+    ureg = regs.default(nt)
+    leaf_num, leaf_name = leafs(ureg, nt)
+    firsts = operand_forms(True, True)
+    first = firsts[idx]
+    signal.signal(signal.SIGALRM, _alarm)
+    acc.dim("first-operand forms", len(firsts))
+    cache = {}
+    for layout, st, py in tree_strings(first, tier):
+        signal.setitimer(signal.ITIMER_REAL, 20)
+        try:
+            if py not in cache:
+                cache[py] = ref_eval(py, leaf_num, leaf_name)
+            ref = cache[py]
+            if ref[0] in ("skip", "syntax"):
+                acc.count("trees skipped (guard)")
+                continue
+            acc.ev()
+            acc.nt(("tree", nt, st))
+            got = pint_eval(ureg.parse_expression, st)
+            compare(acc, "tree:" + layout, "parse_expression", nt, {"python": py}, st, ref, got)
+        except Hang:
+            acc.violation(["tree", "parse_expression", "does-not-terminate", nt], {"string": st}, "termination", "timeout")
+        finally:
+            signal.setitimer(signal.ITIMER_REAL, 0)
+    acc.sample({"clause": "tree", "registry": nt, "first": first[0], "example": "6/\u03a9 (3)  ==  6 / \u03a9 * (3)"})
 
 
 def run_parserhelper(acc, maxlen, prefix):
@@ -559,6 +667,8 @@ def run_shard(acc, shard, tier, seed):
         run_hostile(acc, shard[1], shard[2])
     elif k == "literals":
         run_literals(acc)
+    elif k == "trees":
+        run_trees(acc, shard[1], tier, shard[2])
     else:
         raise core.HarnessError(str(shard))
 
@@ -578,7 +688,7 @@ def replay(rec):
         ureg = regs.default(nt)
         leaf_num, leaf_name = leafs(ureg, nt)
         tokens = case["tokens"]
-        ref = ref_eval(explicit(tokens), leaf_num, leaf_name)
+        ref = ref_eval(tokens["python"] if isinstance(tokens, dict) else explicit(tokens), leaf_num, leaf_name)
         s = case["string"]
         fn = ureg.parse_expression if site[1] == "parse_expression" else (lambda x: ureg.Quantity(x))
         got = pint_eval(fn, s)
@@ -596,7 +706,9 @@ MANIFEST = {
     "parse of the explicit-operator rendering, evaluated with Python operators on exactly the leaf objects pint builds: equal value and units, same exception class, or — when CPython rejects the string — no "
     "value. This decides precedence, associativity (** right-assoc, tighter than unary minus), juxtaposition == '*', unbalanced parentheses and dangling operators exhaustively within the bound. Every "
     "applicable inverse image of the documented preprocessing (juxtaposition, ^, unicode superscripts, per, squared/cubed/square/sq/cubic) of every extended string must give the same value; float, Fraction and "
-    "Decimal registries, Quantity(str) and ParserHelper.from_string; literal typing; all strings up to length 3 (4) over a 22-token hostile alphabet under sys.addaudithook with attribute-recording sentinels.",
+    "Decimal registries, Quantity(str) and ParserHelper.from_string; the same sweep with a unit whose symbol is a non-ASCII word character; pairs of rewrites at once (superscript + blank); every three-operand tree X op Y op Z "
+    "(operands 2 / m / ohm-sign, bare or parenthesised, with or without a superscript exponent and a leading minus; 9 operator spellings incl. blank and 'per'; spaced and tight layouts: 0.6M strings quick, 7.6M thorough) against "
+    "CPython; literal typing; all strings up to length 3 (4) over a 22-token hostile alphabet under sys.addaudithook with attribute-recording sentinels.",
     "note": "Trusted: CPython's parser as the definition of Python precedence; the 6 literal rewrite rules. Not covered: strings longer than the bound, arbitrary unicode fuzz (sampling family), the +/- "
     "uncertainty operator (C19), '%' (rewritten to 'percent' by the default preprocessor). Powers beyond ~1e6 bits are skipped on both sides.",
     "ref": "DESIGN.md §4 C07",
